@@ -20,10 +20,13 @@ inductive RErr where
   | missingFeature
   /-- `ErrInvalidQuery` -/
   | invalidQuery
+  /-- SQLSTATE 21000: a scalar subquery returned more than one row -/
+  | cardinality
   deriving DecidableEq, Repr, Inhabited
 
 def RErr.toString : RErr → String
   | .notFound => "not-found" | .missingFeature => "missing-feature" | .invalidQuery => "invalid-query"
+  | .cardinality => "pg:21000"
 
 /-! ### which (account, asset) pairs have a row -/
 
